@@ -163,11 +163,13 @@ impl<K: ArrowNativeType + Ord, V: OffsetSizeTrait> DictionaryBuffer<K, V> {
                 };
                 let values = if let ArrowType::FixedSizeBinary(size) = **value_type {
                     let binary = values.as_binary::<i32>();
-                    Arc::new(FixedSizeBinaryArray::new(
+                    // pass the length explicitly, it cannot be inferred for zero width values
+                    Arc::new(FixedSizeBinaryArray::try_new_with_len(
                         size,
                         binary.values().clone(),
                         binary.nulls().cloned(),
-                    )) as _
+                        binary.len(),
+                    )?) as _
                 } else {
                     values
                 };
